@@ -94,6 +94,21 @@ class fixed_uniform:
         self.obj.sample = self.old
 
 
+class uniform_sequence:
+    """feeds a given sequence of coupling uniforms (one per call of uniform.sample)"""
+
+    def __init__(self, uniform_obj, us):
+        self.obj, self.us = uniform_obj, list(us)
+
+    def __enter__(self):
+        self.old = self.obj.sample
+        it = iter(self.us)
+        self.obj.sample = lambda *a, **k: next(it)
+
+    def __exit__(self, *a):
+        self.obj.sample = self.old
+
+
 def prob_right_impl(c, inc):
     from rpylib.process.coupling.couplingmarkovchain import CouplingSimulation
     try:
@@ -203,7 +218,7 @@ def _one_d(res, rng, viol, groups):
     from rpylib.distribution.samplingfactory import create_q_vector
     from stepmeasure import random_step_measure, random_dyadic_axis, make_grid, step_spec, build_model
     thorough = res.tier == "thorough"
-    state_cases, prob_cases, level_cases = [], [], []
+    state_cases, prob_cases, level_cases, slice_cases, diff_cases = [], [], [], [], []
     n_chains = 24 if not thorough else 240
     for it in range(n_chains):
         h = Fr(rng.choice([1, 1, 2]), rng.choice([2, 4]))
@@ -278,6 +293,28 @@ def _one_d(res, rng, viol, groups):
                     v = coupling_state_impl(c, inc, u)
                     state_cases.append(f"({nu.coq()}, {lst([qlit(x) for x in xs])}, {natlit(o2)}, {zlit(inc)}, {qlit(u)}, {opt(v, qlit)})")
             if level == nlevels:
+                sim = c._path_coupling_simulation
+                # coupling_states_for_a_slice: a run of increments with its sequence of coupling uniforms
+                all_incs = [p - o2 for p in range(len(xs)) if p != o2]
+                sl = [rng.choice(all_incs) for _ in range(rng.randrange(1, 7))]
+                us_seq = [rng.randrange(0, 2 ** 16) / 2 ** 16 for _ in sl]
+                with uniform_sequence(c.uniform, us_seq):
+                    try:
+                        vals = [float(v) for v in sim.coupling_states_for_a_slice(list(sl))]
+                    except ZeroDivisionError:
+                        vals = None
+                res.count(("slice", it, tuple(sl)), kind="coupling_states_for_a_slice")
+                slice_cases.append(f"({nu.coq()}, {lst([qlit(x) for x in xs])}, {natlit(o2)}, {lst([zlit(i) for i in sl])}, "
+                                   f"{lst([qlit(u) for u in us_seq])}, {opt(vals, lambda vs: lst([qlit(v) for v in vs]))})")
+                # simulate_diffusion_with_coupling: the same Brownian increments w for both components
+                nb = rng.randrange(1, 5)
+                sq = [rng.randrange(1, 9) / 8 for _ in range(nb)]
+                w = [rng.randrange(-16, 17) / 8 for _ in range(nb)]
+                c.fine_process._path_simulation._brownian_increments.appendleft([list(w)])
+                dfine, dcoarse = sim.simulate_diffusion_with_coupling(np.array(sq))
+                res.count(("diffusion", it, tuple(w)), kind="simulate_diffusion_with_coupling")
+                diff_cases.append(f"({qlit(sig_f)}, {qlit(sig_c)}, {lst([qlit(x) for x in sq])}, {lst([qlit(x) for x in w])}, "
+                                  f"{lst([qlit(float(x)) for x in np.ravel(dfine)])}, {lst([qlit(float(x)) for x in np.ravel(dcoarse)])})")
                 md = float(c.fine_process.model.drift())
                 level_cases.append(
                     f"({nu.coq()}, {lst([qlit(float(x)) for x in axis])}, {natlit(o)}, {qlit(h)}, {qlit(md)}, {zlit(REP_VAL[rep])}, {blit(fv)}, "
@@ -288,6 +325,13 @@ def _one_d(res, rng, viol, groups):
                    "fun c => match c with (ps, xs, o, inc, u, e) => oq_eqb (step_coupling_state ps xs o inc u) e end", state_cases))
     groups.append(("prob1d", "list (Q * Q * Q) * list Q * nat * Z * option Q",
                    "fun c => match c with (ps, xs, o, inc, e) => oq_close e (step_prob_right ps xs o inc) end", prob_cases))
+    groups.append(("slice1d", "list (Q * Q * Q) * list Q * nat * list Z * list Q * option (list Q)",
+                   "fun c => match c with (ps, xs, o, incs, us, e) => option_eqb qlist_eqb (coupling_slice amid (chain_mass ps xs) xs o incs us 0) e end",
+                   slice_cases))
+    lclose = "(fun a b => Nat.eqb (length a) (length b) && forallb (fun xy => Qle_bool (Qabs (fst xy - snd xy)) ((1 + Qabs (snd xy)) * (1 # 1000000000000))) (combine a b))"
+    groups.append(("diffusion", "Q * Q * list Q * list Q * list Q * list Q",
+                   f"fun c => match c with (cf, cc, dts, w, ef, ec) => {lclose} ef (fst (diffusion_pair cf cc dts w)) && "
+                   f"{lclose} ec (snd (diffusion_pair cf cc dts w)) end", diff_cases))
     close = "(fun x y => Qle_bool (Qabs (x - y)) ((1 + Qabs y) * (1 # 17592186044416)))"
     groups.append(("levels", "list (Q * Q * Q) * list Q * nat * Q * Q * Z * bool * Q * Q * nat * (list Q * Q * nat * Q * Q * Q * Q)",
                    "fun c => match c with (ps, xs, o, h, md, rep, fv, a, sigma, n, (xs2, h2, o2, sf, sc, df, dc)) => "
@@ -313,9 +357,24 @@ def _samplers(res, rng, viol):
                 np.random.seed(res.seed % 2 ** 31)
                 c, pms, product = build_coupling_1d(model, grid, method)
                 c.next_level(mc_paths=3, path_managers=pms, product=product)
-                coarse_states = set(float(x) for x in grid.axes[0][0::2])
                 for _ in range(3):
                     c.simulate_one_path_with_coupling()
+                # what the coupling does with increments drawn by THIS sampler: every coupled jump is a coarse-grid state,
+                # equal to the fine state when that is a coarse state and one of its two neighbours otherwise
+                ax_f = [float(x) for x in c.grid.axes[0]]
+                o_f = c.grid.origin_coordinate.value
+                incs = [int(i) for i in np.ravel(c.fine_process.sampling.sample(size=60))]
+                vals = [float(v) for v in c._path_coupling_simulation.coupling_states_for_a_slice(incs)]
+                prev = 0.0
+                for inc, v in zip(incs, vals):
+                    jump, pidx = v - prev, o_f + inc
+                    prev = v
+                    ok = (jump == ax_f[pidx]) if inc % 2 == 0 else (jump in (ax_f[pidx - 1], ax_f[pidx + 1]))
+                    if not (0 <= pidx < len(ax_f)) or not ok or jump not in ax_f[0::2]:
+                        viol(f"coupled simulation with SamplingMethod.{method}: a coupled jump is not the fine state / an adjacent coarse state",
+                             kind="sampler", method=method, increment=inc, jump=jump)
+                        break
+                res.bump("sampler_increments_checked", method)
         except Exception as e:  # noqa
             fid = "F-C02-4" if isinstance(e, OverflowError) else "F-C02-5" if "truth value" in str(e) else None
             viol(f"coupled simulation with SamplingMethod.{method} raises {type(e).__name__}", kind="sampler", method=method,
@@ -438,8 +497,65 @@ def cell_nd(axis, idx):
     return lo, hi
 
 
-def oracle_nd(viol, c, coarse_chain, axis_coarse, o_coarse, ctx, tol=1e-6):
-    """brute-force sum_fine rate x P(fine -> y) against the rate of the chain built on the un-refined grid"""
+def faithful_inflow(axis, o, mass_rate, mass_joint, mass_marg, zero=0):
+    """What the RECORDED defect F-C03-1 predicts: the coupled coarse inflow of the faithful model of the current
+    couplinglevycopula.__coupling_state (Model/CouplingNd.v re-stated over arbitrary mass functions): corner probabilities of
+    ONE odd axis from the margin over that axis, joint quarter masses when both axes are odd.  axis = refined axis (list),
+    o = its origin index.  Returns {coarse value pair: inflow}.  Exact when the mass functions return Fractions."""
+    n = len(axis)
+    half = (lambda x, y: (x + y) / 2)
+    out = {}
+
+    def add(v, m):
+        out[v] = out.get(v, zero) + m
+
+    def cell(k):
+        return half(axis[max(0, k - 1)], axis[k]), half(axis[k], axis[min(n - 1, k + 1)])
+
+    def halfcell(k, d):
+        x, m = axis[k], half(axis[k + d], axis[k])
+        return (min(x, m), max(x, m))
+    for p1 in range(n):
+        for p2 in range(n):
+            if (p1, p2) == (o, o):
+                continue
+            (l1, h1), (l2, h2) = cell(p1), cell(p2)
+            rate = mass_rate((l1, l2), (h1, h2))
+            if rate == 0:
+                continue
+            odd1, odd2 = (p1 - o) % 2 == 1, (p2 - o) % 2 == 1
+            if not odd1 and not odd2:
+                add((axis[p1], axis[p2]), rate)
+            elif odd1 and not odd2:
+                tot = mass_marg(0, l1, h1)
+                if tot == 0:
+                    continue
+                for d in (-1, 1):
+                    a, b = halfcell(p1, d)
+                    add((axis[p1 + d], axis[p2]), rate * mass_marg(0, a, b) / tot)
+            elif odd2 and not odd1:
+                tot = mass_marg(1, l2, h2)
+                if tot == 0:
+                    continue
+                for d in (-1, 1):
+                    a, b = halfcell(p2, d)
+                    add((axis[p1], axis[p2 + d]), rate * mass_marg(1, a, b) / tot)
+            else:
+                tot = mass_joint((l1, l2), (h1, h2))
+                if tot == 0:
+                    continue
+                for d1 in (-1, 1):
+                    for d2 in (-1, 1):
+                        (a1, b1), (a2, b2) = halfcell(p1, d1), halfcell(p2, d2)
+                        add((axis[p1 + d1], axis[p2 + d2]), rate * mass_joint((a1, a2), (b1, b2)) / tot)
+    return out
+
+
+def oracle_nd(viol, c, coarse_chain, axis_coarse, o_coarse, ctx, tol=1e-6, predicted=None):
+    """brute-force sum_fine rate x P(fine -> y) (P read off the implementation by bisection on the coupling uniform) against
+    (1) the rate of the chain built on the un-refined grid = the property, and (2) `predicted` = what the faithful model of
+    the recorded defect F-C03-1 gives for the same input.  A mismatch with (1) that is NOT explained state by state by (2)
+    is reported as a new violation; only a mismatch that agrees with (2) everywhere carries the tag F-C03-1."""
     grid = c.grid
     axis = [float(x) for x in grid.axes[0]]
     n, o = len(axis), grid.origin_coordinate.value[0]
@@ -461,7 +577,7 @@ def oracle_nd(viol, c, coarse_chain, axis_coarse, o_coarse, ctx, tol=1e-6):
             return
         for v, pr in law.items():
             inflow[v] = inflow.get(v, 0.0) + rate * pr
-    worst = None
+    worst, worst_dev = None, None
     for j in itertools.product(range(nc), repeat=2):
         if j == (o_coarse, o_coarse):
             continue
@@ -469,13 +585,34 @@ def oracle_nd(viol, c, coarse_chain, axis_coarse, o_coarse, ctx, tol=1e-6):
         with warnings.catch_warnings():
             warnings.simplefilter("ignore")
             want = float(coarse_chain.model.mass(lo, hi))
-        got = inflow.get((axis_coarse[j[0]], axis_coarse[j[1]]), 0.0)
+        val = (axis_coarse[j[0]], axis_coarse[j[1]])
+        got = inflow.get(val, 0.0)
+        pred = float(predicted.get(val, 0.0)) if predicted is not None else None
+        if pred is not None and abs(got - pred) > tol * (1 + abs(want)) and (worst_dev is None or abs(got - pred) > abs(worst_dev[1] - worst_dev[3])):
+            worst_dev = (j, got, want, pred)
         if abs(got - want) > tol * (1 + abs(want)) and (worst is None or abs(got - want) > abs(worst[1] - worst[2])):
-            worst = (j, got, want)
-    if worst is not None:
+            worst = (j, got, want, pred)
+    if worst_dev is not None:
+        j, got, want, pred = worst_dev
+        viol("copula coupling: the coupled inflow of a coarse state differs from what the faithful model of the current coupling code predicts",
+             coarse_state=list(j), coarse_value=[axis_coarse[j[0]], axis_coarse[j[1]]], got=got, want=want, predicted=pred, **ctx)
+    elif worst is not None:
+        j, got, want, pred = worst
+        extra = {"finding": "F-C03-1", "predicted": pred, "tol": tol} if pred is not None else {}
         viol("copula coupling: sum over fine states of rate x P(coupled to y) differs from the previous level's rate of y",
-             finding="F-C03-1", coarse_state=list(worst[0]), coarse_value=[axis_coarse[worst[0][0]], axis_coarse[worst[0][1]]],
-             got=worst[1], want=worst[2], **ctx)
+             coarse_state=list(j), coarse_value=[axis_coarse[j[0]], axis_coarse[j[1]]], got=got, want=want, **extra, **ctx)
+
+
+def matches_known(v, known):
+    """F-C03-1 is accepted only when the implementation's inflow is what the faithful model of the recorded defect predicts
+    (corner probabilities of one odd axis taken from the margin over that axis) and that prediction violates the property"""
+    r = v.get("replay", {})
+    if known.get("id") != "F-C03-1" or r.get("finding") != "F-C03-1":
+        return False
+    if r.get("predicted") is None or "got" not in r or "want" not in r:
+        return False
+    tol = r.get("tol", 1e-6) * (1 + abs(r["want"]))
+    return abs(r["got"] - r["predicted"]) <= tol and abs(r["predicted"] - r["want"]) > tol
 
 
 WITNESS_TABLE = [(Fr(1, 4), Fr(1, 2), Fr(-1, 4), Fr(0), 4), (Fr(1, 4), Fr(1, 2), Fr(0), Fr(1, 4), 4), (Fr(1, 2), Fr(3, 4), Fr(1, 4), 2, 4)]
@@ -501,7 +638,7 @@ def _n_d(res, rng, viol, groups):
     from rpylib.distribution.sampling import SamplingMethod
     from stepmeasure import Table2, table_copula_model, real_model_specs, build_copula_model
     thorough = res.tier == "thorough"
-    nd_cases = []
+    nd_cases, infl_cases = [], []
     tables = [("witness", Table2(WITNESS_TABLE), [-2.0, -1.0, 0.0, 1.0, 2.0], 2, 1.0)]
     for k in range(2 if not thorough else 12):
         ax = [-2.0, -1.0, -0.5, 0.0, 0.5, 1.5, 2.0] if k % 2 else [-2.0, -0.5, 0.0, 0.5, 2.0]
@@ -515,10 +652,23 @@ def _n_d(res, rng, viol, groups):
                 warnings.simplefilter("ignore")
                 coarse_chain = MarkovChainLevyCopula(levy_copula_model=model, grid=copy.deepcopy(grid), method=SamplingMethod.INVERSION)
                 c, product = build_coupling_nd(model, grid)
-                c.next_level(mc_paths=2, path_managers=None, product=product)
+                from rpylib.montecarlo.path import MLMCPath
+                pms = [MLMCPath(deterministic_path=c.fine_process.deterministic_path, activate_spot_underlying=False)]
+                drift_prev = np.array(c.fine_process.process_drift(), dtype=float).copy()
+                dm_prev = np.array(c._diffusion_matrix_h, dtype=float).copy()
+                c.next_level(mc_paths=2, path_managers=pms, product=product)
+                path = np.asarray(pms[-1].deterministic_path(np.array([0.0, 1.0])), dtype=float)    # [fine, coarse] x dim x time
         except Exception as e:  # noqa
             viol(f"building the copula coupling raises {type(e).__name__}", reason=str(e)[:200], **ctx)
             continue
+        # frozen coarse drift and diffusion matrix of the copula coupling
+        res.count(("nd-frozen", name), kind="copula next_level: frozen drift / diffusion matrix")
+        if not np.array_equal(path[1][:, 1] - path[1][:, 0], drift_prev.ravel()) or \
+                not np.array_equal(path[0][:, 1] - path[0][:, 0], np.array(c.fine_process.process_drift(), dtype=float).ravel()):
+            viol("copula coupling: the coarse drift is not the previous level's (frozen) fine drift", **ctx)
+        if c._diffusion_matrix_2h is None or not np.array_equal(np.array(c._diffusion_matrix_2h, dtype=float), dm_prev) or \
+                not np.array_equal(np.array(c._diffusion_matrix_h, dtype=float), np.array(c.fine_process._path_simulation.diffusion_matrix, dtype=float)):
+            viol("copula coupling: the coarse diffusion matrix is not the previous level's fine matrix", **ctx)
         xs = [float(x) for x in c.grid.axes[0]]
         o2 = c.grid.origin_coordinate.value[0]
         if c.grid.origin_coordinate.value != (o2, o2) or not np.array_equal(c.grid.axes[0], c.grid.axes[1]):
@@ -543,7 +693,21 @@ def _n_d(res, rng, viol, groups):
                 res.count(("nd", name, inc, u), nontrivial=odd > 0, kind=f"__coupling_state 2d ({odd} odd axes)")
                 nd_cases.append(f"({table.coq()}, {lst([qlit(x) for x in xs])}, {natlit(o2)}, {zlit(inc[0])}, {zlit(inc[1])}, {qlit(u)}, "
                                 f"{opt(v, lambda t: '(' + qlit(t[0]) + ', ' + qlit(t[1]) + ')')})")
-        oracle_nd(viol, c, coarse_chain, ax, o, ctx)
+        # the faithful model of the recorded defect, exact Fractions on the table (truncation inactive: support inside the grid)
+        bigq = table.support_bound() + 1
+        fine_axis = [Fr(x) for x in xs]
+        pred = faithful_inflow(fine_axis, o2, lambda a, b: table.mass_q(a, b), lambda a, b: table.mass_q(a, b),
+                               lambda k, a, b: table.mass_q((a, -bigq), (b, bigq)) if k == 0 else table.mass_q((-bigq, a), (bigq, b)), zero=Fr(0))
+        js = [(j1, j2) for j1 in range(len(ax)) for j2 in range(len(ax)) if (j1, j2) != (o, o)]
+        if len(js) > 12 and name != "witness":
+            js = rng.sample(js, 12)
+        for (j1, j2) in js:       # ties the Python re-statement to the Coq model Model/CouplingNd.v (inflow2)
+            infl_cases.append(f"({table.coq()}, {lst([qlit(x) for x in ax])}, {natlit(o)}, {natlit(j1)}, {natlit(j2)}, "
+                              f"{qlit(pred.get((Fr(ax[j1]), Fr(ax[j2])), Fr(0)))})")
+        oracle_nd(viol, c, coarse_chain, ax, o, ctx, predicted={(float(k[0]), float(k[1])): v for k, v in pred.items()})
+    groups.append(("inflownd", "list (Q * Q * Q * Q * Q) * list Q * nat * nat * nat * Q",
+                   "fun c => match c with (ps, xs, o, j1, j2, e) => Qeq_bool (inflow2 ps (refine_axis amid xs) (2 * o) (2 * j1) (2 * j2)) e end",
+                   infl_cases))
     groups.append(("statend", "list (Q * Q * Q * Q * Q) * list Q * nat * Z * Z * Q * option (Q * Q)",
                    "fun c => match c with (ps, xs, o, i1, i2, u, e) => oqq_eqb (table_coupling_state2 ps xs o i1 i2 u) e end", nd_cases))
     # real margins with a Clayton copula (tolerance): the experiment of DESIGN section 6
@@ -560,7 +724,11 @@ def _n_d(res, rng, viol, groups):
             c, product = build_coupling_nd(model, grid)
             c.next_level(mc_paths=2, path_managers=None, product=product)
         res.count(("nd-real", "HEMxHEM clayton"), kind="copula coupling, real margins")
-        oracle_nd(viol, c, coarse_chain, ax, 2, ctx, tol=1e-5)
+        fine_axis = [float(x) for x in c.grid.axes[0]]
+        fm, um = c.fine_process.model, c.model      # rates from the truncated chain model, corner masses from the un-truncated one (as the code)
+        pred = faithful_inflow(fine_axis, c.grid.origin_coordinate.value[0], lambda a, b: float(fm.mass(a, b)),
+                               lambda a, b: float(um.mass(a, b, [0, 1])), lambda k, a, b: float(um.mass((a,), (b,), [k])), zero=0.0)
+        oracle_nd(viol, c, coarse_chain, ax, 2, ctx, tol=1e-5, predicted=pred)
     except Exception as e:  # noqa
         viol(f"building the copula coupling raises {type(e).__name__}", reason=str(e)[:200], **ctx)
 
